@@ -274,7 +274,7 @@ def cases(run):
     yield f"qpos W {G[:12]} - - coll 0 2 5 0 1 0"              # an empty collection on a chromosome answers
     yield "qpos N 0 12 coll 0 2 5 0 0 1"
     yield "qpos N - - coll 1 v 4 5 0 - 1 4 5 + 4 5 0 1 0"      # only variants: `is_empty`, no bounds
-    yield "qpos N 0 12 coll 2 g 2 8 1 a 1 2 8 + v 9 10 0 - 1 9 10 + 0 12 1 1 0"   # F-C09a coding_only x variants
+    yield "qpos N 0 12 coll 2 g 2 8 1 a 1 2 8 + v 9 10 0 - 1 9 10 + 0 12 1 1 0"   # F-C09a (repaired): coding_only x variants
     yield f"qguid K 3 {G[3:9]} - - coll 1 f 6 10 0 a 1 6 10 - 1 1"                # F-C09c end clamp loses a base
     yield "qpos P - - coll 1 g 2 8 0 - 1 2 8 + 3 8 0 0 0"      # F-C09b sequence-less parent
     yield "qpos N 0 12 coll 1 g 3 3 0 - 1 3 3 + 2 4 0 0 0"     # zero-length child is never returned
